@@ -97,6 +97,18 @@ class FuncGen(object):
         self.locals.append(t)
         return len(self.params) + len(self.locals) - 1
 
+    def widen_locals(self):
+        """hundreds of declared locals of mixed types before the body is generated: local indices then need two (>= 128) or three
+        (>= 16384) LEB128 bytes, exceed 255, and adjacent local.set / local.get pairs name locals that agree in their low bits"""
+        ch = self.ch
+        n = ch.pick((130, 200, 257, 300, 300, 520, 16390))
+        types = self.f.types
+        if n > 1000:
+            self.locals.extend([ch.pick(types)] * n)          # one long run (compact declaration), cheap to compile
+        else:
+            self.locals.extend(ch.pick(types) for _ in range(n))
+        self.note('wide_local_indices')
+
     def some_local(self, t, writable=False):
         idxs = self.local_of(t, writable)
         if not idxs or (len(self.locals) < 12 and self.ch.below(6) == 0):
@@ -584,6 +596,8 @@ def expr_module(ch, feat, nfuncs, result_types=None, max_params=4):
         params = [ch.pick(feat.types) for _ in range(np_)]
         res = ch.pick(result_types or feat.types)
         g = FuncGen(ch, m, feat, params, res)
+        if ch.below(16) == 0:
+            g.widen_locals()
         body = g.body()
         t = m.type_index(params, (res,))
         m.funcs.append(Func(t, g.locals, body))
@@ -604,11 +618,29 @@ def general_module(ch, feat, nfuncs=8, host_funcs=0, with_trace=False, nglobals=
     if with_trace:
         m.imports.append((b'env', b'trace', 'func', m.type_index((I32,), ())))
         trace_idx = 0
+    # import names: now and then names whose C spellings are neighbours under the translator's escaping (a character next to the
+    # literal text of its own escape, runs of underscores, a module name starting with a digit): the mapping must stay injective
+    exotic = host_funcs >= 2 and ch.below(4) == 0
+    tricky = [b'a.b', b'aX2Eb', b'h$', b'hX24', b'X', b'X58', b'a_b', b'a__b', b'a___b', b'p-q', b'pX2Dq', b'_', b'__']
+    used_names = set()
+    shared_sig = None
     for h in range(host_funcs):
         np_ = ch.below(9) if ch.below(3) == 0 else ch.below(4)
         ps = [ch.pick(feat.types) for _ in range(np_)]
         rs = () if ch.below(4) == 0 else (ch.pick(feat.types),)
-        m.imports.append((b'env', b'h%d' % h, 'func', m.type_index(ps, rs)))
+        mod, nm = b'env', b'h%d' % h
+        if exotic:
+            mod = ch.pick((b'env', b'env', b'e.nv', b'eX2Env', b'1env'))
+            nm = ch.pick(tricky)
+            if (mod, nm) in used_names:
+                mod, nm = b'env', b'h%d' % h
+            elif shared_sig is not None and ch.below(2):
+                ps, rs = shared_sig          # colliding spellings would at least be declaration-compatible: only behaviour shows it
+            else:
+                shared_sig = (ps, rs)
+            info['static']['exotic_import_names'] = 1
+        used_names.add((mod, nm))
+        m.imports.append((mod, nm, 'func', m.type_index(ps, rs)))
     for g in range(imported_globals):
         m.imports.append((b'env', b'ig%d' % g, 'global', (I32 if g == 0 else ch.pick(feat.types), False)))
     if imported_table:
@@ -681,6 +713,8 @@ def general_module(ch, feat, nfuncs=8, host_funcs=0, with_trace=False, nglobals=
                     indirect=ind, mem_mask=mem_mask)
         # functions that are not generated yet have no entry in m.funcs: give the generator a view of all signatures
         g.m = view
+        if ch.below(20) == 0:
+            g.widen_locals()
         body = g.body()
         t = m.type_index(ps, (rs,) if rs else ())
         m.funcs.append(Func(t, g.locals, body))
